@@ -29,8 +29,9 @@ from pathlib import Path
 
 VERIF = Path(__file__).resolve().parent.parent
 REPO = Path(os.environ.get("KDV_REPO", "/repo"))
-EVIDENCE_DIR = VERIF / "evidence"
-REPLAY_DIR = VERIF / "replays"
+_SCRATCH = str(REPO) != "/repo"  # checks tried against a scratch copy must not touch the committed evidence
+EVIDENCE_DIR = Path(os.environ.get("KDV_EVIDENCE_DIR", "/tmp/kdv_scratch/evidence" if _SCRATCH else VERIF / "evidence"))
+REPLAY_DIR = Path(os.environ.get("KDV_REPLAY_DIR", "/tmp/kdv_scratch/replays" if _SCRATCH else VERIF / "replays"))
 KNOWN_FINDINGS = VERIF / "known_findings.json"
 NCPU = min(16, os.cpu_count() or 1)
 
@@ -216,7 +217,7 @@ class Run:
 
 
 def write_evidence(run, mod, inconclusive=None):
-    EVIDENCE_DIR.mkdir(exist_ok=True)
+    EVIDENCE_DIR.mkdir(parents=True, exist_ok=True)
     cov = {
         "evaluations": run.evaluations,
         "distinct_nontrivial": len(run.case_digests),
